@@ -14,7 +14,8 @@ import (
 
 // C10 — filters evaluate according to their logical and comparison semantics.
 
-var c10Ops = []string{"=", "!=", "<", "<=", ">", ">=", "~unknown", ""}
+// (the last ones are unknown operators too: known ones in another letter case or padded)
+var c10Ops = []string{"=", "!=", "<", "<=", ">", ">=", "~unknown", "", " =", "<= ", "AND"}
 
 // refCmp is the natural total order of a base value (independent of the
 // library): numeric, lexicographic for strings and byte strings,
@@ -148,6 +149,29 @@ func c10Leaf(x *mc.Exec) {
 				if ri == 1 && fi == 2 && op == "<" {
 					x.R.Sample("leaf", fmt.Sprintf("%s %s: %s < %s -> %v", impl, k, ShowVal(rv), ShowVal(fv), got))
 				}
+			}
+		}
+	}
+	// the filter value is the very object the resource holds (a program filtering by a value it
+	// took from a resource): same verdicts as for an equal value
+	for _, op := range c10Ops {
+		for ri := 0; ri < nv; ri++ {
+			rv := Values(k, size)[ri]
+			res := d.NewRes(soft)
+			res.Set("a", rv)
+			held := res.Get("a")
+			if held == nil {
+				// a wrapped struct reads a nil pointer field as an untyped nil, which is not a
+				// well-typed filter value (see Assumptions)
+				continue
+			}
+			want, class := refLeaf(op, rv, CloneVal(rv))
+			var got bool
+			p := Try(func() { got = (&j.Filter{Field: "a", Op: op, Val: held}).IsAllowed(res) })
+			x.R.Add("transitions", 1)
+			if p != "" || got != want {
+				x.Fail(fmt.Sprintf("C10:leaf:%s:%s:op%s:%s:same-object", impl, k, op, class),
+					"%s resource of kind %s: (%s %q the value obtained from the resource itself) = %v (panic %q), reference says %v", impl, k, ShowVal(rv), op, got, p, want)
 			}
 		}
 	}
@@ -400,6 +424,20 @@ func c10Large(x *mc.Exec) {
 		}
 		return
 	}
+	// group operators are exactly "and" / "or": any other spelling is an unknown operator
+	for _, op := range []string{"AND", "Or", " and", "or ", "aNd", "OR", "and\n", "&&", "||"} {
+		res := d.NewRes(soft)
+		res.Set("a", "x")
+		holds := &j.Filter{Field: "a", Op: "=", Val: "x"}
+		for _, kids := range [][]*j.Filter{{}, {holds}, {holds, holds}} {
+			var got bool
+			p := Try(func() { got = (&j.Filter{Op: op, Val: kids}).IsAllowed(res) })
+			x.R.Add("transitions", 1)
+			if p != "" || got {
+				x.Fail("C10:large:unknown-group-operator", "%s: operator %q over %d children that hold allows the resource (panic %q): an unknown operator allows nothing", impl, op, len(kids), p)
+			}
+		}
+	}
 	sizes := []int{15, 16, 17, 18, 31, 32, 33, 64, 65, 100}
 	n := sizes[x.Choose(len(sizes), "list size")]
 	order := x.Choose(3, "order")
@@ -526,7 +564,7 @@ func c10Tree(x *mc.Exec) {
 func init() {
 	Register(&Prop{
 		ID: "C10",
-		Rule: "Engine A, all choices Full: (28 kinds x {soft,wrapped} x 8 operators x all ordered pairs of the kind's boundary alphabet incl. nil) + relationship leaves (to-one =,!=,in; to-many =,!=,has,order ops over 10 lists incl. nil on either side) + every and/or tree of depth<=2 and fan-out<=2 (thorough: fan-out<=3) over a true and a false leaf + id lists of 15..100 entries (sorted, reversed, scrambled) for in / has / to-many = and != + and/or chains nested 1..40 deep above a true or a false leaf; " +
+		Rule: "Engine A, all choices Full: (28 kinds x {soft,wrapped} x 11 operators (6 known, 5 unknown incl. known ones padded or in another letter case) x all ordered pairs + every value compared with the very object the resource holds of the kind's boundary alphabet incl. nil) + relationship leaves (to-one =,!=,in; to-many =,!=,has,order ops over 10 lists incl. nil on either side) + every and/or tree of depth<=2 and fan-out<=2 (thorough: fan-out<=3) over a true and a false leaf + id lists of 15..100 entries (sorted, reversed, scrambled) for in / has / to-many = and != + and/or chains nested 1..40 deep above a true or a false leaf; " +
 			"+ one Filter value reused over 3 steps with its value reassigned or edited in place (all sequences over 7 ID lists), compared with fresh filters; oracle = independent evaluator (math/big, bytes.Compare, time.Before) plus trichotomy/complement/<= laws; a leaf case is non-trivial when the two values differ or one is nil, a tree when it has at least one operator node",
 		Assumptions: []string{"well-typed filters only: the filter value has the Go type of the attribute (pointer, possibly typed nil, for nullable kinds)", "ordering of to-one IDs is not judged (statement silent)"},
 		Harnesses: []Harness{
